@@ -22,9 +22,9 @@ SPEC = dict(
                  'g++ 12 ASan/UBSan/LSan and valgrind memcheck report what they claim to report'],
     legs=[
         Leg('regress', 'h_tunnel', 'asan', opts={'mode': 'regress'}, quick=1, thorough=1, workers=1, leaks=True, min_cases=1),
-        Leg('exh', 'h_tunnel', 'asan', opts={'mode': 'exh'}, quick=5000, thorough=300000, workers=16, leaks=True),
-        Leg('sampled', 'h_tunnel', 'asan', opts={'mode': 'sampled'}, quick=24000, thorough=1500000, workers=16, leaks=True),
-        Leg('stream', 'h_tunnel', 'asan', opts={'mode': 'stream'}, quick=8000, thorough=400000, workers=16, leaks=True),
+        Leg('exh', 'h_tunnel', 'asan', opts={'mode': 'exh'}, quick=5000, thorough=125000, workers=16, leaks=True),
+        Leg('sampled', 'h_tunnel', 'asan', opts={'mode': 'sampled'}, quick=24000, thorough=600000, workers=16, leaks=True),
+        Leg('stream', 'h_tunnel', 'asan', opts={'mode': 'stream'}, quick=8000, thorough=200000, workers=16, leaks=True),
         Leg('memcheck_stream', 'h_tunnel', 'plain', opts={'mode': 'stream'}, quick=240, thorough=8000, workers=16, valgrind=True),
         Leg('memcheck', 'h_tunnel', 'plain', opts={'mode': 'sampled'}, quick=480, thorough=16000, workers=16, valgrind=True),
         Leg('memcheck_exh', 'h_tunnel', 'plain', opts={'mode': 'exh'}, quick=96, thorough=3200, workers=16, valgrind=True),
